@@ -64,6 +64,11 @@
                            exactly one in any case
     exactly_one_in_bounded_time   … with "k gone" discharged by the clock
                            having passed the deadline (prompt scheduler)
+    app_exact / answered_exactly_once   the counting equation with EQUALITY at the
+                           application boundary when the confirmations produced
+                           are ones the ASAP forwards (`allPass`): an accepted
+                           request, ANY events, silence until k is gone ⇒
+                           EXACTLY ONE confirmation reaches the application
 
   Deviation from DESIGN §7 (found while proving): the bound "retries + 1
   expiries" holds for unsegmented requests and for a request still being
@@ -101,6 +106,7 @@
   last example of the file.
 -/
 import BacVerif.Lemmas.TsmC04Silent
+import BacVerif.Lemmas.TsmC04Pass
 import BacVerif.Lemmas.IocbQueue
 namespace BacVerif.C04
 open BacVerif.Tsm
@@ -764,6 +770,57 @@ theorem exactly_one_in_bounded_time (hpos : cfg.TimeoutsPos) {s : Sap} (hinv : I
   have h := exactly_one hpos hinv peer service data chosen k mid sil hno hsil hgone
   exact ⟨hgone, h.1, h.2.1⟩
 
+/-- every confirmation the state machines produce along the run is one the
+    ASAP forwards to the application unchanged (`Passes`: SimpleAck, Reject,
+    Abort; ComplexAck / Error whose decoder succeeds) -/
+def allPass (cfg : Cfg) : Sap → List Event → Bool
+  | _, [] => true
+  | s, e :: es => (smapStep cfg s e).2.all (Out.passes cfg) && allPass cfg (step cfg s e).1 es
+
+/-- **app_exact.**  Under `allPass` the counting equation holds with equality
+    at the APPLICATION boundary over any run without a new request for `k`. -/
+theorem app_exact (hpos : cfg.TimeoutsPos) (k : Key) : ∀ (es : List Event) {s : Sap}, Inv s →
+    noReqFor cfg k s es = true → allPass cfg s es = true →
+    nConfFor k (run cfg s es).2 + liveC (run cfg s es).1 k = liveC s k := by
+  intro es
+  induction es with
+  | nil => intro s _ _ _; simp [run_nil]
+  | cons e es ih =>
+    intro s hinv hno hp
+    simp only [noReqFor, Bool.and_eq_true] at hno
+    simp only [allPass, Bool.and_eq_true] at hp
+    have h1 := app_conf_step_exact hpos hinv e k (hreq_of hno.1) hp.1
+    have h2 := ih (C11.inv_step hpos hinv e) hno.2 hp.2
+    rw [run_cons_fst, run_cons_snd, nConfFor_append]
+    omega
+
+/-- **answered_exactly_once.**  The property's first sentence.  A request that
+    the access point accepted (`hacc`: answered at once or listed), then ANY
+    events `mid` — the adversarial network; the confirmations it provokes are
+    ones the ASAP forwards — then silence until `k` is gone (after at most
+    2·retries + 1 expiries, or once the clock has passed the deadline):
+    EXACTLY ONE confirmation for `k` reaches the application in all of it. -/
+theorem answered_exactly_once (hpos : cfg.TimeoutsPos) {s : Sap} (hinv : Inv s) (peer : Peer)
+    (service : Nat) (data : Bytes) (chosen : Option Nat) (k : Key) (mid sil : List Event)
+    (hno : noReqFor cfg k (step cfg s (.request peer service data chosen)).1 mid = true)
+    (hsil : ∀ e ∈ sil, Silent e = true) :
+    let s1 := (step cfg s (.request peer service data chosen)).1
+    let s2 := (run cfg s1 mid).1
+    let s3 := (run cfg s2 sil).1
+    nConfFor k (step cfg s (.request peer service data chosen)).2 + liveC s1 k = 1 →
+    allPass cfg s1 mid = true → (∀ t ∈ s3.clients, t.key ≠ k) →
+      nConfFor k ((step cfg s (.request peer service data chosen)).2 ++ (run cfg s1 mid).2 ++
+        (run cfg s2 sil).2) = 1 := by
+  intro s1 s2 s3 hacc hpass hgone
+  have hinv1 : Inv s1 := C11.inv_step hpos hinv _
+  have hinv2 : Inv s2 := C11.inv_run hpos mid hinv1
+  have hmid : nConfFor k (run cfg s1 mid).2 + liveC s2 k = liveC s1 k := app_exact hpos k mid hinv1 hno hpass
+  have hsx : nConfFor k (run cfg s2 sil).2 + liveC s3 k = liveC s2 k :=
+    exactly_one_under_silence hpos k sil hinv2 hsil
+  have h3 : liveC s3 k = 0 := liveC_zero.2 (findTxn_none.2 hgone)
+  rw [nConfFor_append, nConfFor_append]
+  omega
+
 /-! ## non-vacuity: concrete traces (kernel evaluation of the model) -/
 
 def exCfg : Cfg :=
@@ -800,6 +857,24 @@ example :
     promptRun exCfg ⟨0, 1⟩ s1 sil = true ∧ notOverdue s1 ⟨0, 1⟩ = true ∧
     deadline exCfg s1 ⟨0, 1⟩ = 15000000 ∧ (run exCfg s1 sil).1.now = 16000000 ∧ liveC s1 ⟨0, 1⟩ = 1 ∧
     noReqFor exCfg ⟨0, 1⟩ s1 [] = true := by
+  decide +kernel
+
+/-- hypotheses of `answered_exactly_once`: the request, a retry after a lost
+    reply, the reply (ComplexAck) arriving twice, a stray abort; then silence —
+    accepted, forwarded, gone; one confirmation -/
+example :
+    let req : Event := .request 0 200 [1, 2, 3] none
+    let s1 := (step exCfg Sap.init req).1
+    let ack : Apdu := { ty := 3, invokeId := 1, service := 200, data := [5] }
+    let mid : List Event := [.tick 3000000, .timeout false 0 1, .frame 0 ack, .frame 0 ack,
+                             .frame 0 (mkAbort true 1 4), .frame 1 ack]
+    let sil : List Event := [.tick 60000000]
+    nConfFor ⟨0, 1⟩ (step exCfg Sap.init req).2 + liveC s1 ⟨0, 1⟩ = 1 ∧
+    noReqFor exCfg ⟨0, 1⟩ s1 mid = true ∧ allPass exCfg s1 mid = true ∧
+    (run exCfg (run exCfg s1 mid).1 sil).1.clients = [] ∧
+    (run exCfg s1 mid).2 = [.send 0 { ty := 0, service := 200, invokeId := 1, data := [1, 2, 3],
+                                      maxSegs := 4, maxResp := 0, sa := true },
+                            .confirm 0 ack] := by
   decide +kernel
 
 /-- a segmented ComplexAck of three segments (window 2), the last one duplicated:
